@@ -24,6 +24,8 @@ pub enum Op {
     /// drop the k-th in-flight request future before completion (client role only; reported separately)
     Drop { k: usize },
     Adv { ms: u64 },
+    /// the wall clock is stepped BACK (clock correction) while requests may be in flight
+    Back { ms: u64 },
 }
 
 #[derive(Serialize, Deserialize, Clone, Debug)]
@@ -160,7 +162,7 @@ impl Prop for C20 {
         }
     }
     fn rule_text(&self) -> &'static str {
-        "seeded scenarios: 10-50 ops over requests through sentinel_tower::SentinelService (server and client role, without fallback, with a fallback that answers, and with one that returns an error for odd request ids) around a scripted inner service whose outcome per call is {ready Ok, ready Err, Pending x j then Ok, Pending x j then Err}, an isolation rule of threshold 1..3 on the extracted resource, and a hand-written executor that polls the in-flight request futures one at a time in PRNG order with a no-op waker; dropping a future before completion is explored for the client role and counted separately (not a verdict). After every op: inner service called exactly once iff the reference isolation model admits, rejected requests yield fallback or error, completed requests (Ok or Err) release their admission, current_concurrency equals the reference. Non-trivial = an admitted request that ended with an inner error, a rejection and a later admission; distinct = distinct trace hash."
+        "seeded scenarios: 10-50 ops over requests through sentinel_tower::SentinelService (server and client role, without fallback, with a fallback that answers, and with one that returns an error for odd request ids) around a scripted inner service whose outcome per call is {ready Ok, ready Err, Pending x j then Ok, Pending x j then Err}, an isolation rule of threshold 1..3 on the extracted resource, and a hand-written executor that polls the in-flight request futures one at a time in PRNG order with a no-op waker; the virtual wall clock is advanced and (one time step in five) stepped back by 1-500 ms between operations; dropping a future before completion is explored for the client role and counted separately (not a verdict). After every op: inner service called exactly once iff the reference isolation model admits, rejected requests yield fallback or error, completed requests (Ok or Err) release their admission, current_concurrency equals the reference. Non-trivial = an admitted request that ended with an inner error, a rejection and a later admission; distinct = distinct trace hash."
     }
     fn components(&self) -> Value {
         json!({"real": ["middleware/tower: SentinelService::call, deal_with_sentinel!; sentinel-core: EntryBuilder, slot chain, isolation slot, resource node concurrency"],
@@ -179,7 +181,13 @@ impl Prop for C20 {
                 0 => ops.push(Op::Call { ok: !rng.chance(err_w, 4), pend: *rng.pick(&[0u8, 0, 1, 2, 5]) }),
                 1 => ops.push(Op::Poll { k: rng.below(6) as usize }),
                 2 => ops.push(Op::Drop { k: rng.below(6) as usize }),
-                _ => ops.push(Op::Adv { ms: *rng.pick(&[0u64, 1, 10, 500, 2000]) }),
+                _ => {
+                    if rng.chance(1, 5) {
+                        ops.push(Op::Back { ms: *rng.pick(&[1u64, 10, 500]) })
+                    } else {
+                        ops.push(Op::Adv { ms: *rng.pick(&[0u64, 1, 10, 500, 2000]) })
+                    }
+                }
             }
         }
         serde_json::to_value(Scn { epoch_ns, res: format!("c20_{:x}", rng.below(0xffffff)), threshold: rng.range(1, 3) as u32, server, fallback: rng.chance(1, 2), picky: rng.chance(1, 2), ops }).unwrap()
@@ -232,6 +240,11 @@ fn run(sc: &Scn, w: &mut World, tr: &mut Trace, cov: &mut Cov) -> Option<Violati
     for (i, op) in sc.ops.iter().enumerate() {
         match op {
             Op::Adv { ms } => w.advance(ms * MS),
+            Op::Back { ms } => {
+                crate::seams::vc::set(crate::seams::vc::now_ns().saturating_sub(ms * MS));
+                w.ops += 1;
+                cov.hit("clock_stepped_back");
+            }
             Op::Call { ok, pend } => {
                 w.ops += 1;
                 next_id += 1;
